@@ -1550,11 +1550,13 @@ class AbsPaths:
     class Undecided(Exception):
         pass
 
-    def __init__(self, fn, limit=20000, oracles=None):
+    def __init__(self, fn, limit=20000, oracles=None, raw_oracles=None):
         """oracles: list of (callee regex, fn(site, arg_values) -> abstract value | None): scenario inputs, i.e. what a call
         the analysis does not look into is assumed to return in the scenario being evaluated (decision tables)."""
         self.fn = fn
         self.limit = limit
+        self.raw_specs = list(raw_oracles or [])
+        self.raw = [(re.compile(p), f) for (p, f) in self.raw_specs]
         self.oracle_specs = list(oracles or [])
         self.oracles = [(re.compile(p), f) for (p, f) in self.oracle_specs]
         self.labels = {}
@@ -1621,7 +1623,14 @@ class AbsPaths:
                 fv = self._eval_operand(st, o)
                 if fv is not None:
                     fields.append((i, fv))
-            val = ("variant", r["v"] if "adt" in r else ("{closure}" if "closure" in r else "()"), tuple(fields))
+            val = ("variant", r["v"] if "adt" in r else (("{closure}:" + r["closure"]) if "closure" in r else "()"), tuple(fields))
+        elif k == "agg" and not any(x in r for x in ("adt", "tuple", "closure", "coroutine", "coroutine_closure")):
+            # array literal
+            fields = []
+            for i, o in enumerate(r["ops"]):
+                fv = self._eval_operand(st, o)
+                fields.append((i, fv))
+            val = ("variant", "[]", tuple(fields)) if all(fv is not None for _, fv in fields) else None
         elif k == "ref":
             q = r["p"]
             if not q["p"]:
@@ -1629,10 +1638,14 @@ class AbsPaths:
                 if r["bk"] == "mut":
                     val = ("refmut", q["l"])
             else:
-                # a reference into a known value: carry the value itself (enough for reads through the reference)
-                inner = self._eval_place(st, q)
-                if inner is not None:
-                    val = ("refval", inner)
+                base = st.get(q["l"])
+                if q["p"] == ["*"] and base is not None and base[0] in ("ref", "refmut"):
+                    val = base  # a reborrow `&mut *r` designates the same location as r
+                else:
+                    # a reference into a known value: carry the value itself (enough for reads through the reference)
+                    inner = self._eval_place(st, q)
+                    if inner is not None:
+                        val = ("refval", inner)
         elif k == "cast":
             val = self._eval_operand(st, r["o"])
         elif k == "binop":
@@ -1651,6 +1664,12 @@ class AbsPaths:
         site = CallSite(self.fn, -1, t)
         n = norm(site.name)
         res = None
+        # raw oracles (seqmodel.py): abstract semantics of std's sequence API on small tagged lists; they read and update
+        # the per-path state themselves and say whether they handled the call
+        for rx, rfn in self.raw:
+            if any(rx.search(c) for c in (site.nres, site.ndecl, site.res, site.decl) if c):
+                if rfn(self, st, t, site):
+                    return
         for rx, ofn in self.oracles:
             if any(rx.search(c) for c in (site.nres, site.ndecl, site.res, site.decl) if c):
                 vals = []
@@ -1682,7 +1701,7 @@ class AbsPaths:
                     vals.append(av)
                 if any(v is not None for v in vals):
                     try:
-                        sub = AbsPaths(self.fn.facts.unit(callee, expand=True), limit=3000, oracles=self.oracle_specs)
+                        sub = AbsPaths(self.fn.facts.unit(callee, expand=True), limit=3000, oracles=self.oracle_specs, raw_oracles=self.raw_specs)
                         sub.depth = getattr(self, "depth", 0) + 1
                         outs = {v for (v, _) in sub.outcomes(state={i + 1: v for i, v in enumerate(vals) if v is not None})}
                         if len(outs) == 1:
@@ -1726,7 +1745,7 @@ class AbsPaths:
             return v not in listed
         return str(lab.value).lstrip("-").isdigit() and int(lab.value) == v
 
-    def outcomes(self, state=None, start=0, observe_blocks=()):
+    def outcomes(self, state=None, start=0, observe_blocks=(), extra_keys=()):
         """Decision-table evaluation: explores all feasible paths from `start` under `state` / the oracles and returns the
         set of (abstract return value, frozenset of observe_blocks visited) over the paths that reach a return."""
         fn = self.fn
@@ -1754,7 +1773,10 @@ class AbsPaths:
                         self._assign(st, s)
             t = fn.term(b)
             if t["k"] == "return":
-                out.add((_freeze(st.get(0)), vis))
+                if extra_keys:
+                    out.add((_freeze(st.get(0)), vis, tuple(st.get(k) for k in extra_keys)))
+                else:
+                    out.add((_freeze(st.get(0)), vis))
                 continue
             if t["k"] == "call":
                 if is_noise(t):
